@@ -1,0 +1,20 @@
+//go:build verif
+
+package dkg
+
+import (
+	"github.com/corestario/kyber"
+	pedersen "github.com/corestario/kyber/share/dkg/pedersen"
+)
+
+// Accessors used by the verification tooling (build tag "verif").
+
+func (d *DKG) VerifInstance() *pedersen.DistKeyGenerator { return d.instance }
+
+// VerifDealerSecret returns the constant term of this dealer's secret polynomial.
+func (d *DKG) VerifDealerCommits() []kyber.Point {
+	if d.instance == nil {
+		return nil
+	}
+	return d.instance.GetDealer().Commits()
+}
